@@ -40,6 +40,8 @@ pub enum Op {
     NotifyLeaf(usize),
     NotifyLook(usize),
     NotifyBurst(usize),
+    /// the source drops its EventSender: no event will ever arrive again
+    DropSender,
 }
 #[derive(Clone, Debug, Serialize, Deserialize)]
 pub struct Work {
@@ -124,7 +126,13 @@ impl Property for C08 {
                         4 => Op::EditLeaf(g.below(3) as usize),
                         5 => Op::EditLook(g.below(nl.max(1) as u64) as usize),
                         6 | 7 => Op::NotifyLeaf(g.below(3) as usize),
-                        8 => Op::NotifyLook(g.below(nl.max(1) as u64) as usize),
+                        8 => {
+                            if g.chance(1, 3) {
+                                Op::DropSender
+                            } else {
+                                Op::NotifyLook(g.below(nl.max(1) as u64) as usize)
+                            }
+                        }
                         _ => Op::NotifyBurst(2 + g.below(6) as usize),
                     })
                     .collect(),
@@ -151,7 +159,14 @@ impl Property for C08 {
                 let callers = d.split(" | ").filter(|t| t.contains(":h") && t.contains("@condvar")).count();
                 format!("C08/deadlock/{rel}/callers-waiting={}", if callers >= 2 { ">=2".to_string() } else { callers.to_string() })
             }
-            f => format!("C08/{}", f.rule()),
+            f => {
+                let r = f.rule();
+                if r.starts_with("C08/") {
+                    r
+                } else {
+                    format!("C08/{r}")
+                }
+            }
         })
     }
     fn shrink(&self, work: &Value) -> Vec<Value> {
@@ -254,6 +269,10 @@ fn scenario(w: Work, nt: Shared<bool>) {
                             }
                             Op::NotifyLook(i) => {
                                 src.notify(file_entry(&format!("q{i}"), "lk"));
+                            }
+                            Op::DropSender => {
+                                src.drop_sender();
+                                detsim::count("fault.source_dropped_its_sender");
                             }
                             Op::NotifyBurst(n) => {
                                 let es = (0..*n).map(|j| if j % 2 == 0 { file_entry(&format!("k{}", j % 3), "a") } else { file_entry(&format!("q{}", j % 4), "lk") }).collect();
